@@ -992,7 +992,30 @@ fn member_policy(r: &mut Rng) -> (String, usize) {
         ),
     };
     let s = r.pick(&set_srcs).clone();
-    let (guard, test) = match r.below(5) {
+    let (guard, test) = match r.below(7) {
+        5 | 6 => {
+            // can-error analysis stress: an operator the analysis may regard as error-free (`in`, `hasTag`, `==`, `contains`, `like`, `has`)
+            // whose RIGHT (or left) operand can still error on a completion (attribute chain through an entity that may be missing),
+            // conjoined with a constant so that folding to the constant is only sound if the operand cannot error
+            let risky = match r.below(8) {
+                0 => "principal in resource.owner.friends".to_string(),
+                1 => "principal in [resource.owner, resource.owner.manager]".to_string(),
+                2 => "principal.hasTag(resource.owner.name)".to_string(),
+                3 => "resource.owner.friends.contains(principal)".to_string(),
+                4 => format!("User::\"{u}\" in resource.owner.friends"),
+                5 => "resource.owner.name like \"a*\"".to_string(),
+                6 => "principal == resource.owner.manager".to_string(),
+                _ => "resource.owner.manager has manager".to_string(),
+            };
+            let gd = if risky.contains("resource.owner.manager") { "resource.owner has manager && ".to_string() } else { String::new() };
+            let t = match r.below(4) {
+                0 => format!("(({risky}) && false)"),
+                1 => format!("(({risky}) || true)"),
+                2 => format!("(({risky}) && context.n < context.n)"),
+                _ => format!("(false || (({risky}) && false))"),
+            };
+            (gd, t)
+        }
         0 | 1 => {
             let (gd, e) = r.pick(&elems).clone();
             (gd, format!("{s}.contains({e})"))
